@@ -6,14 +6,17 @@
 
 namespace vf
 {
+static std::atomic<uint64_t> g_recorderIds{1};
+Recorder::Recorder() : perThread(64), id(g_recorderIds.fetch_add(1)) {}
 int Recorder::slot()
 {
+    // keyed by a unique recorder id (not its address: pooled threads, e.g. OpenMP workers, outlive stack recorders)
     static thread_local int mySlot = -1;
-    static thread_local const Recorder *owner = nullptr;
-    if (owner != this || mySlot < 0)
+    static thread_local uint64_t owner = 0;
+    if (owner != id || mySlot < 0)
     {
         mySlot = nextSlot.fetch_add(1) % (int)perThread.size();
-        owner = this;
+        owner = id;
     }
     return mySlot;
 }
